@@ -18,23 +18,23 @@ def field_parts(tier):
 
 def run(tier):
     obs = [
-        Obligation('field', 'harness/c06.py', 'h_field', partitions=field_parts(tier), timeout=(400 if tier == 'quick' else 1500),
+        Obligation('field', 'harness/c06.py', 'h_field', partitions=field_parts(tier), timeout=(400 if tier == 'quick' else 600),
                    what='a project signature with one field goes through SignatureField._dumps -> json text -> to_python: loaded == original, Diff empty both ways, re-serialised text identical',
                    bounds='7 field types; attributes absent/stated (quick: two at a time) with values from pools (False/True, 0/1/255/2^31, strings with quotes, non-ASCII, %s, empty)',
                    functions=F),
-        Obligation('togethers', 'harness/c06.py', 'h_togethers', partitions=[[a, b] for a in range(3) for b in range(3)], timeout=(400 if tier == 'quick' else 1500),
+        Obligation('togethers', 'harness/c06.py', 'h_togethers', partitions=[[a, b] for a in range(3) for b in range(3)], timeout=(400 if tier == 'quick' else 600),
                    what='unique_together / index_together as lists or tuples at both levels, applied flag, db_table_comment, db_tablespace',
                    bounds='0-2 entries each, 2^4 list/tuple choices, 4 comments, 3 tablespaces', functions=F),
-        Obligation('index', 'harness/c06.py', 'h_index', partitions=[[c, e, (1 if tier == 'quick' else 3)] for c in range(7 if tier == 'quick' else 13) for e in range(4)], timeout=(400 if tier == 'quick' else 1500),
+        Obligation('index', 'harness/c06.py', 'h_index', partitions=[[c, e, (1 if tier == 'quick' else 3)] for c in range(7 if tier == 'quick' else 13) for e in range(4)], timeout=(400 if tier == 'quick' else 600),
                    what='Meta.indexes: name/none, ordering prefixes, fields list/tuple, condition Q trees (nested, negated, OR, XOR), include list/tuple, opclasses, tablespace, expressions (F, F+Value, F.desc())',
                    bounds='7 (thorough: 13) condition shapes x 6 lookup values x 4 expression shapes x field/include/opclass/tablespace choices', functions=F),
-        Obligation('constraint', 'harness/c06.py', 'h_constraint', partitions=[[k, c] for k in range(2) for c in range(13) if not (k == 1 and c == 0)], timeout=(400 if tier == 'quick' else 1500),
+        Obligation('constraint', 'harness/c06.py', 'h_constraint', partitions=[[k, c] for k in range(2) for c in range(13) if not (k == 1 and c == 0)], timeout=(400 if tier == 'quick' else 600),
                    what='Meta.constraints: UniqueConstraint (fields list/tuple, condition, deferrable, include) and CheckConstraint (check Q tree), one or two constraints',
                    bounds='2 kinds x 13 condition shapes (flat, OR, negated, nested, XOR, plain nested single/same-connector children, negated OR nodes top-level and nested) x 6 values x deferrable/include choices', functions=F),
         Obligation('app', 'harness/c06.py', 'h_app', timeout=600,
                    what='upgrade method, applied-migration sets, legacy app label, non-ASCII/dotted app ids, two apps with a cross-app relation, app without models',
                    bounds='3 upgrade methods x 0-2 migrations x 3 legacy labels x 3 app ids x 2 x 2', functions=F),
-        Obligation('v1', 'harness/c06.py', 'h_v1', partitions=[[t] for t in range(7)], timeout=(400 if tier == 'quick' else 1500),
+        Obligation('v1', 'harness/c06.py', 'h_v1', partitions=[[t] for t in range(7)], timeout=(400 if tier == 'quick' else 600),
                    what='v2 -> v1 dict -> v2 for the v1-expressible subset: equal signature, empty Diff, equal v2 serialisation',
                    bounds='7 field types x null/max_length x 0-2 together entries x named/unnamed index', functions=F[1:]),
     ]
